@@ -109,7 +109,8 @@ inductive MLStep (c c' : Conn) (out : Out) : Prop where
   | add (cfg : Cfg c c') (sid : Nat) (hml : ml c'.streams = ml c.streams ++ [(sid, initLocal c sid)])
       (hnone : c.find? sid = none) (hnf : sid ∉ c.finishedIds) (hfin : c'.finishedIds = c.finishedIds)
       (hno : ∀ sid v, ¬ MSD out sid v)
-  | discard (cfg : Cfg c c') (sid : Nat) (hml : ml c'.streams = (ml c.streams).filter (fun p => p.1 != sid))
+  | discard (cfg : Cfg c c') (sid : Nat) (st : Strm) (hf : c.find? sid = some st) (hdone : st.isFinished = true)
+      (hml : ml c'.streams = (ml c.streams).filter (fun p => p.1 != sid))
       (hfin : c'.finishedIds = sid :: c.finishedIds) (hno : ∀ sid v, ¬ MSD out sid v)
   | raise (cfg : Cfg c c') (sid m v : Nat) (hf : (sid, m) ∈ ml c.streams) (hle : m ≤ v)
       (hml : ml c'.streams = setFirst sid v (ml c.streams)) (hfin : c'.finishedIds = c.finishedIds)
